@@ -29,7 +29,14 @@ pub struct Case {
     pub plan_seed: u64,
     /// index into the (site, params) setups shared with C14 and into the start dates
     pub setup: u8,
+    /// one long stall (seconds, not milliseconds) at one schedule point: Some((point index into POINTS, worker/visit
+    /// index, milliseconds)). Timeouts in channel code are measured in seconds; micro-delays never reach them.
+    #[serde(default)]
+    pub stall: Option<(u8, u16, u32)>,
 }
+
+const POINTS: [&str; 9] =
+    ["collector_start", "after_recv", "collector_end", "before_spawn", "worker_start", "before_send", "after_send", "before_drop_tx", "before_join"];
 
 const STARTS: [(i32, u32, u32); 4] = [(2023, 1, 1), (2019, 12, 25), (1999, 6, 1), (2096, 2, 20)];
 
@@ -38,6 +45,9 @@ static VISITS: [AtomicU32; 64] = [const { AtomicU32::new(0) }; 64];
 static COLLECTOR_STARTS: AtomicU32 = AtomicU32::new(0);
 static WORKER_STARTS: AtomicU32 = AtomicU32::new(0);
 static DELAYS: AtomicU32 = AtomicU32::new(0);
+static STALL_CODE: AtomicU64 = AtomicU64::new(0);
+static STALL_IDX: AtomicU32 = AtomicU32::new(0);
+static STALL_MS: AtomicU32 = AtomicU32::new(0);
 
 fn name_code(name: &str) -> u64 {
     name.bytes().fold(1469598103934665603u64, |h, b| (h ^ b as u64).wrapping_mul(1099511628211))
@@ -51,6 +61,12 @@ fn sched_hook(name: &'static str, idx: usize) {
         WORKER_STARTS.fetch_add(1, Ordering::SeqCst);
     }
     let code = name_code(name);
+    if STALL_MS.load(Ordering::SeqCst) > 0 && STALL_CODE.load(Ordering::SeqCst) == code && STALL_IDX.load(Ordering::SeqCst) as usize == idx {
+        let ms = STALL_MS.swap(0, Ordering::SeqCst);
+        if ms > 0 {
+            std::thread::sleep(Duration::from_millis(ms as u64));
+        }
+    }
     let slot = (mix(&[code, idx as u64]) % 64) as usize;
     let visit = VISITS[slot].fetch_add(1, Ordering::SeqCst);
     let seed = PLAN_SEED.load(Ordering::SeqCst);
@@ -98,8 +114,12 @@ impl Prop for C15 {
             3 => prop_oneof![Just(1u32), Just(2), Just(3), Just(15), Just(16), Just(17), Just(64)],
             2 => 2u32..=20,
         ];
-        (workers, 0u8..12, 0.0..1.0f64, 0u8..8, 0u32..=400, any::<u64>(), 0u8..24)
-            .prop_map(|(workers, dkind, u, tkind, traw, plan_seed, setup)| {
+        let stall = prop_oneof![
+            1999 => Just(None),
+            1 => (0u8..9, 0u16..4, 5200u32..=7000).prop_map(Some),
+        ];
+        (workers, 0u8..12, 0.0..1.0f64, 0u8..8, 0u32..=400, any::<u64>(), 0u8..24, stall)
+            .prop_map(|(workers, dkind, u, tkind, traw, plan_seed, setup, stall)| {
                 let w = workers as i64;
                 let days: i64 = match dkind {
                     0 => 0,
@@ -124,7 +144,7 @@ impl Prop for C15 {
                     _ => traw,
                 }
                 .min(400);
-                Case { workers, days, threshold, plan_seed, setup }
+                Case { workers, days, threshold, plan_seed, setup, stall }
             })
             .boxed()
     }
@@ -164,6 +184,15 @@ impl Prop for C15 {
         COLLECTOR_STARTS.store(0, Ordering::SeqCst);
         WORKER_STARTS.store(0, Ordering::SeqCst);
         DELAYS.store(0, Ordering::SeqCst);
+        match c.stall {
+            Some((p, idx, ms)) => {
+                STALL_CODE.store(name_code(POINTS[p as usize % POINTS.len()]), Ordering::SeqCst);
+                STALL_IDX.store(idx as u32, Ordering::SeqCst);
+                STALL_MS.store(ms.min(20_000), Ordering::SeqCst);
+                st.class("case_with_a_multi_second_stall");
+            }
+            None => STALL_MS.store(0, Ordering::SeqCst),
+        }
         verif_hooks::set_parallelism(Some(c.workers as usize));
         verif_hooks::set_sched_hook(Some(sched_hook));
         let got = catch(|| prayer_times_dt_rng_block(&params, loc, &range, c.threshold as usize));
@@ -225,14 +254,30 @@ impl Prop for C15 {
         }
         Ok(())
     }
+    fn enumerate(&self, _tier: Tier, _shard: usize, _nshards: usize, st: &mut Stats) -> Result<(), (Case, Failure)> {
+        // fixed long-stall scenarios: 4 workers, 400 days, threshold 0, a 6.5 s stall at one schedule point.
+        // Each of the 8 processes runs one of them (all of them when the run is not split over processes).
+        let scenarios: [(u8, u16); 8] = [(5, 0), (3, 2), (1, 0), (4, 1), (0, 0), (7, 4), (6, 0), (8, 4)];
+        let mine: Vec<usize> = match std::env::var("VERIF_CHILD").ok().and_then(|v| v.split('/').next().and_then(|k| k.parse::<usize>().ok())) {
+            Some(k) => vec![k % scenarios.len()],
+            None => (0..scenarios.len()).collect(),
+        };
+        for i in mine {
+            let (p, idx) = scenarios[i];
+            let c = Case { workers: 4, days: 400, threshold: 0, plan_seed: 0x5741_4c4c + i as u64, setup: 1, stall: Some((p, idx, 6500)) };
+            crate::engine::guarded(&c, || self.check(&c, st))?;
+            st.nontrivial_enum(1);
+        }
+        Ok(())
+    }
     fn rule(&self) -> String {
-        "generated (workers 1..64 with mass at 1,2,3,15,16,17,64; days 0..6000 with mass at 0,1,workers-1,workers,workers+1,365*workers+-1; threshold 0..400 with mass at 0,1 and at the parallel/sequential boundary days/workers; 64-bit delay-plan seed; one of 24 (site, params, start date) setups). Every run installs a schedule hook that, at each of 10 named points (collector start, after each recv, before each spawn, worker start, before/after send, before drop(tx), before join), does nothing / yields / sleeps 20 us - 3 ms as a pure function of (plan seed, point, index, visit). Non-trivial = the parallel branch was really taken (observed through the hook) with >= 2 partitions; distinct by hash of the case".into()
+        "generated (workers 1..64 with mass at 1,2,3,15,16,17,64; days 0..6000 with mass at 0,1,workers-1,workers,workers+1,365*workers+-1; threshold 0..400 with mass at 0,1 and at the parallel/sequential boundary days/workers; 64-bit delay-plan seed; one of 24 (site, params, start date) setups). Every run installs a schedule hook that, at each of 10 named points (collector start, after each recv, before each spawn, worker start, before/after send, before drop(tx), before join), does nothing / yields / sleeps 20 us - 3 ms as a pure function of (plan seed, point, index, visit). One case in 2,000 additionally stalls one point for 5.2-7 s, and 8 fixed scenarios (one per process) stall each kind of point for 6.5 s. Non-trivial = the parallel branch was really taken (observed through the hook) with >= 2 partitions; distinct by hash of the case".into()
     }
     fn assumptions(&self) -> Vec<String> {
         vec![
             "interleavings are perturbed, not enumerated: the realised schedule is not reproducible, the saved case (incl. its delay plan) is the reproducible unit; absence of schedule-dependent failures is not proved".into(),
             "reference = per-day results for exactly the days of the range (shown equal to the sequential range API by C14, and compared with it literally for ranges up to 400 days)".into(),
-            "termination: a run exceeding 60 s (normal < 0.5 s) is a hang only if the saved case exceeds the bound again in a fresh process".into(),
+            "stalls are bounded by 7 s: a timeout longer than that in the code under test is not reached; termination: a run exceeding 60 s (normal < 0.5 s) is a hang only if the saved case exceeds the bound again in a fresh process".into(),
             "within a process cases run one at a time (the hooks are process-global); the run is split over 8 processes with different seeds".into(),
         ]
     }
